@@ -133,6 +133,10 @@ def run(tier, seed):
             if tier == "quick" and len(variants) > 2:
                 # two concrete choices per configuration, rotating so that every program is used
                 variants = [variants[(k + 0) % len(variants)], variants[(k * 2 + 1) % len(variants)]]
+            elif len(variants) > 10:
+                # thorough: ten concrete choices per configuration (the product of concrete programs grows with the
+                # fourth power of the menu), rotating through all of them over the configurations
+                variants = [variants[(k * 7 + 3 * j) % len(variants)] for j in range(10)]
             for srcnames in variants:
                 outs = (False, True) if (tier == "thorough" or (k % 3 == 0)) else (False,)
                 for use_o in outs:
